@@ -329,7 +329,7 @@ impl Property for C02 {
         tier.pick(10_000, 300_000)
     }
     fn strategy(_tier: Tier) -> BoxedStrategy<Spec> {
-        let cfg = Cfg { min_steps: 1, max_steps: 4, max_owners: 1, ..Cfg::basic() };
+        let cfg = Cfg { min_steps: 1, max_steps: 4, max_owners: 1, big: true, ..Cfg::basic() };
         let cfg_mixed = Cfg { min_steps: 1, max_steps: 2, max_owners: 1, cheap: false, ..Cfg::basic() };
         (
             prop_oneof![5 => valid_world(cfg), 1 => valid_world(cfg_mixed)],
